@@ -21,6 +21,12 @@ NOTES = {
     'C10-B3-call-argument-context-loses-max-seq-len': 'MISSED by C10 as built then (no container inside a namedtuple field / defaultdict argument); caught after adding call-style holders to the shapes',
     'C15-A3-deferred-lookup-skips-builtins-supertypes': 'MISSED by C15 as built then (all lattice classes lived in one ordinary module); caught after letting lattice roots claim the module builtins / __main__',
     'C06-B3-all-str-elements-exact-length-shortcut': 'MISSED by C06 as built then (no sequences of elements printed through the repr fallback); caught after adding Decimal/Fraction/complex/range/... elements to the one-line values',
+    'C16-B4-default-style-cache-not-invalidated': 'MISSED by C16 as built then (every render passed an explicit style); caught after adding sequences of cpprint calls without style argument around set_default_style / set_default_config(style=...)',
+    'C10-A4-none-limit-lost-in-derived-contexts': 'MISSED by C10 as built then (no container longer than the default limit of 1000); caught after adding 1000/1001/1500-element containers at top level and nested with None and larger limits',
+    'C17-B4-attrs-takes-self-default-cached-per-class': 'MISSED by C17 as built then (takes_self factories did not depend on the instance); caught after deriving the default from another field',
+    'C19-B4-failed-printer-disabled-for-the-type': 'first caught by C14 (later fault-free print differs); C19 itself MISSED it as built then (no type whose printer fails for some instances only); caught by C19 after adding one',
+    'C19-B4b-resolved-printer-memo-misses-subclasses': 'first caught by C15 (history: print subclass, register base by name, print subclass); C19 itself MISSED it as built then (no registration between prints); caught by C19 after adding histories with registration operations',
+    'C13-A4-thread-local-visited-set': 'first caught by C14 (print after an invalid-return ValueError); C13 itself MISSED it as built then; caught by C13 after adding the aborted-print probe',
 }
 for name, note in NOTES.items():
     p = os.path.join(HOME, 'seeded', name, 'meta.json')
